@@ -22,7 +22,7 @@ import itertools
 import struct
 
 STREAMS = ['binary-cuts', 'binary-random', 'binary-coalesced', 'binary-malformed',
-           'lines-scripted', 'handoff-real-client', 'handoff-real-server', 'handoff-cuts']
+           'lines-scripted', 'handoff-real-client', 'handoff-real-server', 'handoff-cuts', 'handoff-bigtail']
 THEOREMS = ['binary_partition_independent', 'frames_of_messages', 'line_partition_independent',
             'handoff', 'loop_bounded']
 TRUSTED_BASE = [
@@ -447,11 +447,16 @@ def classify(sc, obs):
     hs = bytes.fromhex(sc.get('handshake', ''))
     rest = b''.join(sent)
     # does one read hold the end of the handshake together with message bytes?
-    pos, joined = 0, False
+    pos, joined, tail = 0, False, 0
     for r in reads:
         if pos < len(hs) < pos + len(r):
             joined = True
+            after = r[len(hs) - pos:]
+            tail = len(after) - (after.rfind(b'\r\n') + 2 if b'\r\n' in after else 0)
         pos += len(r)
+    if joined and tail > MAX_AUTH + 1:
+        return 'handoff-tail-over-auth-limit', ('more than MAX_AUTH_LENGTH + 1 message bytes after the last CR LF of '
+                                                'the read that holds the final handshake line: ' + what)
     if joined and b'\r\n' in rest:
         return 'handoff-crlf-in-message', ('message bytes containing 0d0a in the same read as the final '
                                            'handshake line: ' + what)
@@ -757,6 +762,45 @@ def stream_handoff_cuts(ctx, B):
     B.flush()
 
 
+def stream_handoff_bigtail(ctx, B):
+    """The final handshake line in one read with MORE than MAX_AUTH_LENGTH + 1 bytes of message data after
+    that read's last CR LF (one big message / many coalesced small ones): message bytes are never an
+    over-long auth line."""
+    rng = ctx.rng
+    _, message, _, _ = _mods()
+    sizes = [16300, 16386, 20000, 70000]
+    for mode in ('stub-client', 'stub-server', 'real-client', 'real-server'):
+        if mode == 'real-client':
+            hs, script = b'OK 0123456789abcdef0123456789abcdef\r\n', ''
+        elif mode == 'real-server':
+            hs, script = b'\0AUTH ANONYMOUS 747864627573\r\nBEGIN\r\n', ''
+        else:
+            hs, script = (b'' if mode == 'stub-client' else b'\0') + b'AUTH X\r\nBEGIN\r\n', 'cs'
+        for size in sizes:
+            for kind in ('big', 'small', 'crlf-then-big'):
+                if kind == 'small':
+                    one = message.MethodReturnMessage(1, body=['abc'], signature='s')
+                    one.serial = 1
+                    raw1 = serialize(one, rng.random() < 0.5)
+                    assert b'\r\n' not in raw1
+                    raws = [raw1] * (size // len(raw1) + 1)
+                else:
+                    m = message.MethodReturnMessage(1, body=['a' * size], signature='s')
+                    m.serial = 7
+                    raws = [serialize(m, rng.random() < 0.5)]
+                    if kind == 'crlf-then-big':
+                        m0 = message.MethodReturnMessage(2573, body=['x\r\ny'], signature='s')
+                        m0.serial = 2573
+                        raws = [serialize(m0, False)] + raws
+                rest = b''.join(raws)
+                tail = len(rest) - (rest.rfind(b'\r\n') + 2 if b'\r\n' in rest else 0)
+                ctx.stat('handoff-bigtail:tail-after-last-crlf=%s' % ('>16385' if tail > 16385 else '<=16385'))
+                for reads in ([hs + rest], [hs[:-2], hs[-2:] + rest], [hs[:-1], hs[-1:] + rest[:-5], rest[-5:]]):
+                    B.add('handoff-bigtail', {'mode': mode, 'script': script, 'reads': [r.hex() for r in reads],
+                                              'sent': [r.hex() for r in raws], 'handshake': hs.hex()})
+        B.flush()
+
+
 # --------------------------------------------------------------------------------------- entry points
 def run_one(ctx, stream, sc, oracle=True):
     B = Batch(ctx)
@@ -779,6 +823,7 @@ def run(ctx):
     stream_handoff_real(ctx, B, 'real-client')
     stream_handoff_real(ctx, B, 'real-server')
     stream_handoff_cuts(ctx, B)
+    stream_handoff_bigtail(ctx, B)
     B.flush()
 
 
